@@ -65,6 +65,13 @@ def main(argv):
         traceback.print_exc()
         print('HARNESS-ERROR property=%s unexpected exception in the harness' % pid)
         return 2
+    # central shrinking of failures found inside shard workers (once per signature, in parallel)
+    try:
+        strategies = getattr(mod, 'STRATEGIES', None)
+        if strategies and any(sig not in known for sig in stats.fails):
+            common.shrink_all(stats, strategies, mod.CLAUSES, pid)
+    except common.HarnessError as exc:
+        print('NOTE: shrinking failed (%s); reporting unshrunk cases' % exc)
     wall = time.time() - t0
 
     new = [f for sig, f in sorted(stats.fails.items()) if sig not in known]
